@@ -80,6 +80,36 @@ def history(args):
     return ev
 
 
+def history_forked(args):
+    """the process encrypts first and is then forked: the children (pre-fork server workers) must not repeat each other"""
+    import os, pickle
+    (alg, enc, ser), n, kids = args
+    ev = history(((alg, enc, ser), 2, 0))
+    pipes = []
+    for k in range(kids):
+        r, w = os.pipe()
+        pid = os.fork()
+        if pid == 0:
+            try:
+                os.close(r)
+                try:
+                    out = history(((alg, enc, ser), n, k))
+                except BaseException as e:  # noqa
+                    out = [{"error": repr(e)}]
+                with os.fdopen(w, "wb") as f:
+                    pickle.dump(out, f)
+            finally:
+                os._exit(0)
+        os.close(w)
+        pipes.append((pid, r))
+    for pid, r in pipes:
+        with os.fdopen(r, "rb") as f:
+            data = f.read()
+        os.waitpid(pid, 0)
+        ev += pickle.loads(data) if data else [{"error": "child died"}]
+    return ev
+
+
 def genkeys(args):
     spec, n, part = args
     from joserfc.jwk import JWKRegistry
@@ -141,11 +171,18 @@ def run(ctx: Ctx) -> None:
         res = pool.map(history, tasks, chunksize=1)
         gtasks = [(g, (40 if g[0] == "RSA" else n) // procs, p) for g in gens for p in range(procs)]
         gres = pool.map(genkeys, gtasks, chunksize=1)
+        fcfgs = [c for i, c in enumerate(cfgs) if thorough or i % 3 == 0]
+        fres = pool.map(history_forked, [(c, 24, 4) for c in fcfgs], chunksize=1)
     traces = []
     for i, c in enumerate(cfgs):
         ev = [e for p in range(procs) for e in res[i * procs + p]]
         kinds = {e["kind"] for e in ev}
         traces.append({"name": "/".join(c), "uniform": sorted(kinds & {"iv", "cek", "gcmkw_iv", "p2s"}), "events": ev})
+    for c, ev in zip(fcfgs, fres):
+        if any("error" in e for e in ev):
+            raise MachineryError(f"forked history failed: {[e for e in ev if 'error' in e][:1]}")
+        kinds = {e["kind"] for e in ev}
+        traces.append({"name": "/".join(c) + " (encrypt, then fork 4 workers)", "uniform": sorted(kinds & {"iv", "cek", "gcmkw_iv", "p2s"}), "events": ev})
     for i, g in enumerate(gens):
         ev = [e for p in range(procs) for e in gres[i * procs + p]]
         traces.append({"name": f"generate {g[0]} {g[1]}", "uniform": ["genkey"] if g[0] == "oct" else [], "events": ev})
